@@ -22,6 +22,8 @@ fn main() {
         "illtyped" => Box::new(fam::illtyped::IllTyped::new(&args)),
         "totality" => Box::new(fam::totality::Totality::new(&args)),
         "evalcmp" => Box::new(fam::evalcmp::EvalCmp::new(&args)),
+        "constorder" => Box::new(fam::constorder::ConstOrder::new(&args)),
+        "grammar" => Box::new(fam::grammar::Grammar::new(&args)),
         "corpus" => Box::new(fam::corpus::Corpus::new(&args)),
         "sig-gate" => Box::new(fam::catalog::gate::Gate::new(&args)),
         "boundary" => Box::new(fam::catalog::boundary::Boundary::new(&args)),
